@@ -112,3 +112,74 @@ def verdict_signature(check):
         r = sig.setdefault(o.rule, [0, 0])
         r[0 if o.ok else 1] += 1
     return {k: tuple(v) for k, v in sig.items()}
+
+
+# ---- corpus audit (thorough tier, evidence only) -----------------------------------------------------------------
+# The stored behaviour-preserving refactorings (refactors/*) and breaking changes of this property (seeded/*) are applied
+# to scratch copies of the *current* tree (outside /repo and /verif, removed at once) and the rules are re-run on them.
+# A refactoring must leave the verdict signature of the property unchanged; a breaking change must add a refutation.
+# The outcome is recorded in the evidence file; it never changes the exit status, because on a tree that differs from
+# the one the corpus was made for a patch may not apply or may interact with the difference.
+
+def _run_variant(args):
+    pid, root, patch, tier = args
+    import importlib
+    import subprocess
+    from . import report
+    from .loader import Program, AnalysisError
+    tmp = tempfile.mkdtemp(prefix='sfcv_corpus_')
+    try:
+        shutil.copytree(os.path.join(root, 'sfc_models'), os.path.join(tmp, 'sfc_models'),
+                        ignore=shutil.ignore_patterns('__pycache__'))
+        subprocess.run(['git', 'init', '-q'], cwd=tmp, capture_output=True)
+        r = subprocess.run(['git', 'apply', patch], cwd=tmp, capture_output=True, text=True)
+        if r.returncode:
+            return (patch, 'not-applicable', None)
+        mod = importlib.import_module('sfcv.rules.' + pid)
+        c = report.Check(pid, 'quick', tmp)
+        try:
+            mod.run(Program(tmp), c)
+        except AnalysisError as e:
+            if report.has_new_refutations(c):
+                return (patch, 'refuted', verdict_signature(c))
+            return (patch, 'lost-anchor: %s' % str(e)[:80], None)
+        except Exception as e:      # the analyser itself failed on the variant
+            return (patch, 'internal-error: %s' % str(e)[:80], None)
+        return (patch, 'refuted' if report.has_new_refutations(c) else 'clean', verdict_signature(c))
+    finally:
+        shutil.rmtree(tmp, ignore_errors=True)
+
+
+def corpus_audit(pid, root, check, verif_dir):
+    import glob
+    import json
+    from concurrent.futures import ProcessPoolExecutor
+    jobs = []
+    for sd in sorted(glob.glob(os.path.join(verif_dir, 'refactors', '*'))):
+        if os.path.exists(os.path.join(sd, 'patch.diff')):
+            jobs.append(('refactor', os.path.basename(sd), os.path.join(sd, 'patch.diff')))
+    for sd in sorted(glob.glob(os.path.join(verif_dir, 'seeded', '*'))):
+        try:
+            meta = json.load(open(os.path.join(sd, 'meta.json')))
+        except (IOError, ValueError):
+            continue
+        if meta.get('property') == pid and os.path.exists(os.path.join(sd, 'patch.diff')):
+            jobs.append(('breaking', os.path.basename(sd), os.path.join(sd, 'patch.diff')))
+    if not jobs:
+        return
+    workers = max(1, min(14, (os.cpu_count() or 2) - 2))
+    with ProcessPoolExecutor(workers) as ex:
+        results = list(ex.map(_run_variant, [(pid, root, p, 'quick') for _, _, p in jobs]))
+    tally = {'refactor': {}, 'breaking': {}}
+    odd = []
+    for (kind, name, _), (_, outcome, sig) in zip(jobs, results):
+        key = outcome.split(':')[0]
+        tally[kind][key] = tally[kind].get(key, 0) + 1
+        if (kind == 'refactor' and key not in ('clean', 'not-applicable')) or (kind == 'breaking' and key not in ('refuted', 'not-applicable')):
+            odd.append('%s %s -> %s' % (kind, name, outcome))
+    check.audit.append('corpus: %d behaviour-preserving refactorings re-applied to the current tree: %s' % (
+        sum(tally['refactor'].values()), dict(sorted(tally['refactor'].items()))))
+    check.audit.append('corpus: %d stored breaking changes of this property re-applied to the current tree: %s' % (
+        sum(tally['breaking'].values()), dict(sorted(tally['breaking'].items()))))
+    for o in odd[:10]:
+        check.audit.append('corpus: unexpected: ' + o)
